@@ -80,4 +80,8 @@ class ConstantModel(StatelessModel):
         if self.features is None:
             raise LeaspyModelInputError("The model was not properly initialized.")
         values = [individual_parameters[f] for f in self.features]
-        return torch.tensor([[values] * len(timepoints)], dtype=torch.float32)
+        # a unique time-point may be given as a scalar (cf. `BaseModel.estimate`)
+        n_timepoints = torch.as_tensor(timepoints).numel()
+        return torch.tensor(
+            [[values] * n_timepoints], dtype=torch.float32
+        ).reshape(1, n_timepoints, len(self.features))
